@@ -296,6 +296,9 @@ func (e *Exec) Run() {
 			e.Stats.Inc("fault.clock.local_time_zone")
 		}
 	}
+	if e.Prop == "C16" || e.Prop == "C17" {
+		e.statelessSweep()
+	}
 	if e.Prop == "C04" && Keyed(e.S.Seed, "seq-binding", 0).Chance(0.3) {
 		e.probeDidSeqBinding()
 	}
@@ -1621,6 +1624,8 @@ func (e *Exec) judgeTx(p *pendingTx, bt *BuiltTx, pred *prediction, accepted boo
 			prop := propOfSection(key)
 			if fd := DiffFlatFull(want, ex.Flat, sec, 1); prop == "C03" && len(fd) == 1 && onlySeqDiffers(fd[0]) {
 				prop = "C04" // same document, wrong sequence
+			} else if prop == "C03" && e.Prop == "C04" && len(fd) == 1 && seqDiffers(fd[0]) {
+				prop = "C04" // an accepted DID message after which the stored sequence is not the one the statements require
 			}
 			if sec == "pnft/" && pred.AltDenom != "" {
 				prop = "C12"
@@ -1681,6 +1686,11 @@ func hasNamedFeePayer(msgs []sdk.Msg) bool {
 func onlySeqDiffers(d FlatDiff) bool {
 	ws, gs := strings.SplitN(d.Want, ";seq=", 2), strings.SplitN(d.Got, ";seq=", 2)
 	return len(ws) == 2 && len(gs) == 2 && ws[0] == gs[0] && ws[1] != gs[1]
+}
+
+func seqDiffers(d FlatDiff) bool {
+	ws, gs := strings.SplitN(d.Want, ";seq=", 2), strings.SplitN(d.Got, ";seq=", 2)
+	return len(ws) == 2 && len(gs) == 2 && ws[1] != gs[1]
 }
 
 func (s *Script) stepTx(id int) (*TxSpec, bool) {
@@ -1995,6 +2005,46 @@ func (e *Exec) clientSideValidate(id int, bt *BuiltTx) {
 				}()
 				_ = m.GetSigners()
 			}()
+		}
+	}
+}
+
+// statelessSweep (C16, C17): the boundary table has grown to well over a thousand messages and a run turns only a few
+// dozen of them into transactions. The stateless part of the judgement - ValidateBasic against the documented limits,
+// no panic in ValidateBasic / GetSigners / GetSignBytes - needs no chain: every run checks a 250-entry slice of the table
+// directly (a different slice per seed, so that ten runs cover the table).
+func (e *Exec) statelessSweep() {
+	g := &Gen{rng: NewPRNG(e.S.Seed ^ 0x5157), env: e.Env, prop: "C16", tier: "quick", specs: map[int]*TxSpec{}, built: map[int][]sdk.Msg{}, plan: NewModel()}
+	tbl := g.boundaryTable()
+	if len(tbl) == 0 {
+		return
+	}
+	bc := &BuildCtx{Env: e.Env, BlockTime: time.Unix(1700000000, 0), DidSeq: func(string) (uint64, bool) { return 0, true }, Built: func(int, int) sdk.Msg { return nil }}
+	off := int(e.S.Seed%uint64(len(tbl)/250+1)) * 250
+	for i := 0; i < 250; i++ {
+		spec := tbl[(off+i)%len(tbl)]
+		var m sdk.Msg
+		func() {
+			defer func() { recover() }()
+			m = bc.Build(&spec)
+		}()
+		if m == nil {
+			continue
+		}
+		e.clientSideValidate(-1, &BuiltTx{Msgs: []sdk.Msg{m}})
+		if lm, ok := m.(interface{ GetSignBytes() []byte }); ok && passesValidateBasic(m) {
+			func() {
+				defer func() {
+					if r := recover(); r != nil {
+						e.viol("C17", "panic.getsignbytes", sdk.MsgTypeURL(m), "GetSignBytes panicked after successful validation of %s: %v", msgJSON(e.Env, m), r)
+					}
+				}()
+				_ = lm.GetSignBytes()
+			}()
+		}
+		e.Stats.Inc("probe.stateless_sweep")
+		if e.stop {
+			return
 		}
 	}
 }
